@@ -103,6 +103,12 @@ def run(run, binfo):
                    {'a': 'Ops'}, {'a': {'b': {'c': 'Ops'}}}):
         for key in ('a.b', 'target.secret.owner'):
             gens.append(([('hole', key)], nested, {'roles': ['ops', 'other']}))
+    # a placeholder is filled from the TARGET only: same-named entries of the credentials do not stand in
+    for key in ('k', 'key2', 'a.b', 'project_name'):
+        for val in ('Ops', 'acme'):
+            gens.append(([('hole', key)], {}, {key: val, 'roles': [val.lower(), 'zz']}))
+            gens.append(([('hole', key)], {'other': val}, {key: val, 'roles': [val.upper()]}))
+            gens.append(([('hole', key)], {key: 'tgt'}, {key: val, 'roles': [val.lower(), 'TGT']}))
     # names that differ by more than letter case -- compatibility forms (full width, ligature, superscript), combining
     # sequences versus precomposed letters -- are different names
     for x, other in (('admin', '\uff41\uff44\uff4d\uff49\uff4e'), ('fi', '\ufb01'), ('2', '\u00b2'), ('a', '\u00aa'),
